@@ -1,0 +1,107 @@
+//! Verification hooks. Compiled only with `RUSTFLAGS="--cfg raptorq_verif"`; with the flag off this
+//! file is not part of the crate. Nothing here changes behaviour: it records what the PI solver was
+//! given and what it returned, and re-exports private entry points under public names.
+#![allow(dead_code, clippy::type_complexity)]
+
+use crate::operation_vector::SymbolOps;
+use crate::symbol_slab::SymbolSlab;
+use std::cell::RefCell;
+use std::vec::Vec;
+
+pub use crate::base::{deg, intermediate_tuple};
+pub use crate::constraint_matrix::enc_indices;
+pub use crate::encoder::verif::*;
+pub use crate::rng::rand;
+pub use crate::systematic_constants::{
+    calculate_p1, extended_source_block_symbols, num_hdpc_symbols, num_intermediate_symbols,
+    num_ldpc_symbols, num_lt_symbols, num_pi_symbols, systematic_index,
+};
+
+/// One symbol operation in plain types: (kind, dest, src, scalar); kind 0 = AddAssign,
+/// 1 = MulAssign, 2 = FMA. Reorder is returned separately.
+#[derive(Clone, Debug, PartialEq, Eq)]
+pub struct PlainOps {
+    pub ops: Vec<(u8, usize, usize, u8)>,
+    pub reorders: Vec<(usize, Vec<usize>)>, // (position in the op list, order)
+}
+
+pub fn plain_ops(ops: &[SymbolOps]) -> PlainOps {
+    let mut out = PlainOps {
+        ops: Vec::new(),
+        reorders: Vec::new(),
+    };
+    for op in ops {
+        match op {
+            SymbolOps::AddAssign { dest, src } => out.ops.push((0, *dest, *src, 1)),
+            SymbolOps::MulAssign { dest, scalar } => out.ops.push((1, *dest, 0, scalar.byte())),
+            SymbolOps::FMA { dest, src, scalar } => out.ops.push((2, *dest, *src, scalar.byte())),
+            SymbolOps::Reorder { order } => out.reorders.push((out.ops.len(), order.clone())),
+        }
+    }
+    out
+}
+
+/// What one run of `IntermediateSymbolDecoder::execute` saw and produced.
+#[derive(Clone, Debug)]
+pub struct SolverRecord {
+    pub num_source_symbols: u32,
+    pub rows: usize,
+    pub cols: usize,
+    pub has_hdpc: bool,
+    pub symbol_size: usize,
+    pub d_before: Vec<u8>, // rows * symbol_size bytes, row-major, as handed to the solver
+    pub result: Option<PlainOps>,
+    pub finished: bool,
+}
+
+thread_local! {
+    static RECORDS: RefCell<Option<Vec<SolverRecord>>> = const { RefCell::new(None) };
+}
+
+/// Start recording on this thread (drops earlier records).
+pub fn start_recording() {
+    RECORDS.with(|r| *r.borrow_mut() = Some(Vec::new()));
+}
+
+/// Stop recording and return the records.
+pub fn take_records() -> Vec<SolverRecord> {
+    RECORDS.with(|r| r.borrow_mut().take().unwrap_or_default())
+}
+
+pub(crate) fn record_solver_entry(
+    num_source_symbols: u32,
+    rows: usize,
+    cols: usize,
+    has_hdpc: bool,
+    d: &SymbolSlab,
+) {
+    RECORDS.with(|r| {
+        if let Some(v) = r.borrow_mut().as_mut() {
+            let mut bytes = Vec::with_capacity(d.len() * d.symbol_size());
+            for i in 0..d.len() {
+                bytes.extend_from_slice(d.get(i));
+            }
+            v.push(SolverRecord {
+                num_source_symbols,
+                rows,
+                cols,
+                has_hdpc,
+                symbol_size: d.symbol_size(),
+                d_before: bytes,
+                result: None,
+                finished: false,
+            });
+        }
+    });
+}
+
+pub(crate) fn record_solver_exit(ops: Option<&[SymbolOps]>) {
+    RECORDS.with(|r| {
+        if let Some(v) = r.borrow_mut().as_mut()
+            && let Some(last) = v.last_mut()
+        {
+            last.result = ops.map(plain_ops);
+            last.finished = true;
+        }
+    });
+}
